@@ -169,6 +169,19 @@ def settings_reads(fn):
             # the key is a parameter of a spliced accessor (intOption(settings, group + "/key", dflt)): what the caller passed
             leaves = concat_leaves(deref_local(fn, n["args"][0]))
 
+        # a key prefix computed once (`const QString prefix = group + '/'; ... settings.value(prefix + "key")`): the local stands for its pieces
+        for _ in range(2):
+            ex = []
+            for lf_ in leaves:
+                l0 = skip_copies(lf_)
+                if isinstance(l0, dict) and l0.get("k") == "ref" and l0.get("dk") == "local" and not is_ref_to(l0, gdecl):
+                    d0 = deref_local(fn, l0)
+                    if isinstance(d0, dict) and skip_copies(d0).get("id") != l0.get("id"):
+                        ex += concat_leaves(d0)
+                        continue
+                ex.append(lf_)
+            leaves = ex
+
         def text_of(x):
             # constant text of a piece, through Qt string wrappers and parameters of a spliced accessor lambda
             x = skip_copies(deref_local(fn, x))
